@@ -1,5 +1,6 @@
 import CallbagModel.Ops.Pipeline
 import CallbagModel.Script
+import CallbagModel.Closed.Exec
 /-!
 # Pipelines (C06): parse the textual description shared with harness/src/pipe.rs, evaluate the model (`sem`, `listSem`), compare
 -/
@@ -61,6 +62,24 @@ partial def toPipe : Sx → Option Pipe
       | _, _ => none
   | _ => none
 
+/-- LINEAR programs (a source followed by unary stages) as ONE machine: the operator machines of `Ops/` wired by `compose` -/
+partial def toAnyM : Sx → Option Closed.AnyM
+  | .list [.atom "src", n] => (sxNat n).map fun n => Closed.srcM (rangeFrom 1 n)
+  | .list [.atom "src", n, a] => match sxNat n, sxInt a with | some n, some a => some (Closed.srcM (rangeFrom a n)) | _, _ => none
+  | .list [.atom "inf", a] => (sxInt a).map fun a => Closed.srcM (rangeFrom a infLen)
+  | .list [.atom "map", .atom "add", k, p] => match sxInt k, toAnyM p with
+    | some k, some A => some (Closed.thenM A (Closed.relayM (Relay.map (· + k)))) | _, _ => none
+  | .list [.atom "map", .atom "mul", k, p] => match sxInt k, toAnyM p with
+    | some k, some A => some (Closed.thenM A (Closed.relayM (Relay.map (· * k)))) | _, _ => none
+  | .list [.atom "filter", .atom "mod", m, r, p] => match sxInt m, sxInt r, toAnyM p with
+    | some m, some r, some A => some (Closed.thenM A (Closed.relayM (Relay.filter (fun x => x % m == r)))) | _, _, _ => none
+  | .list [.atom "scan", .atom "lin", b, s, p] => match sxInt b, sxInt s, toAnyM p with
+    | some b, some s, some A => some (Closed.thenM A (Closed.relayM (Relay.scan (scanLinP b) s))) | _, _, _ => none
+  | .list [.atom "take", n, p] => match sxNat n, toAnyM p with | some n, some A => some (Closed.thenM A (Closed.takeM n)) | _, _ => none
+  | .list [.atom "skip", n, p] => match sxNat n, toAnyM p with
+    | some n, some A => some (Closed.thenM A (Closed.relayM (Relay.skip n))) | _, _ => none
+  | _ => none
+
 def fmtL (l : List Int) : String := "[" ++ ",".intercalate (l.map toString) ++ "]"
 
 /-- model verdict for one pipeline: `out=[…] done=true nexts=N` -/
@@ -68,7 +87,12 @@ def pipeModel (desc : String) : Option String :=
   match sxParse (sxTokens desc) with
   | some (sx, _) => (toPipe sx).map fun p =>
       let r := sem p none
-      s!"out={fmtL r.1} done=true nexts={r.2} list={fmtL (listSem p)}"
+      let mach := match toAnyM sx with
+        | some A =>
+          let m := Closed.runClosed (Closed.thenM A Closed.forEachM)
+          s!" mach={fmtL m.apps} mnexts={m.nexts} mok={m.returned && !m.panicked && m.viols == 0}"
+        | none => ""
+      s!"out={fmtL r.1} done=true nexts={r.2} list={fmtL (listSem p)}{mach}"
   | none => none
 
 partial def pipeLoop (h : IO.FS.Stream) (n bad : Nat) : IO (Nat × Nat) := do
@@ -95,6 +119,11 @@ partial def pipeLoop (h : IO.FS.Stream) (n bad : Nat) : IO (Nat × Nat) := do
       if get "done" != "true" then probs := "noCompletion" :: probs
       if get "nexts" != mget "nexts" || get "nexts2" != mget "nexts" then probs := s!"iteratorAdvances(model {mget "nexts"})" :: probs
       if mget "out" != mget "list" then probs := "MODEL:sem≠listSem" :: probs
+      -- the network of operator machines (linear programs only) against `sem`, hence against the crate
+      if mget "mach" != "?" then
+        IO.println "MACH"
+        if mget "mach" != mget "out" || mget "mnexts" != mget "nexts" || mget "mok" != "true" then
+          probs := s!"MODEL:machines≠sem(mach={mget "mach"},mnexts={mget "mnexts"},mok={mget "mok"})" :: probs
       if probs.isEmpty then pipeLoop h (n + 1) bad
       else IO.println s!"FLAG pipeline | {desc} | {real} | {" ".intercalate probs}"; pipeLoop h (n + 1) (bad + 1)
   | _ => pipeLoop h n bad
